@@ -141,13 +141,13 @@ func (c *Container) addHandler(service *WebService, serveMux *http.ServeMux, reg
 }
 
 func (c *Container) Remove(ws *WebService) error {
+	c.webServicesLock.Lock()
+	defer c.webServicesLock.Unlock()
 	if c.ServeMux == http.DefaultServeMux {
 		errMsg := fmt.Sprintf("cannot remove a WebService from a Container using the DefaultServeMux: ['%v']", ws)
 		log.Print(errMsg)
 		return errors.New(errMsg)
 	}
-	c.webServicesLock.Lock()
-	defer c.webServicesLock.Unlock()
 	// build a new ServeMux and re-register all WebServices
 	newServeMux := http.NewServeMux()
 	newServices := []*WebService{}
@@ -312,18 +312,25 @@ func fixedPrefixPath(pathspec string) string {
 	return pathspec[:varBegin]
 }
 
+// serveMux returns the current ServeMux ; Remove replaces it while holding the webServicesLock.
+func (c *Container) serveMux() *http.ServeMux {
+	c.webServicesLock.RLock()
+	defer c.webServicesLock.RUnlock()
+	return c.ServeMux
+}
+
 // ServeHTTP implements net/http.Handler therefore a Container can be a Handler in a http.Server
 func (c *Container) ServeHTTP(httpWriter http.ResponseWriter, httpRequest *http.Request) {
 	// Skip, if content encoding is disabled
 	if !c.contentEncodingEnabled {
-		c.ServeMux.ServeHTTP(httpWriter, httpRequest)
+		c.serveMux().ServeHTTP(httpWriter, httpRequest)
 		return
 	}
 	// content encoding is enabled
 
 	// Skip, if httpWriter is already an CompressingResponseWriter
 	if _, ok := httpWriter.(*CompressingResponseWriter); ok {
-		c.ServeMux.ServeHTTP(httpWriter, httpRequest)
+		c.serveMux().ServeHTTP(httpWriter, httpRequest)
 		return
 	}
 
@@ -346,12 +353,12 @@ func (c *Container) ServeHTTP(httpWriter http.ResponseWriter, httpRequest *http.
 		}
 	}
 
-	c.ServeMux.ServeHTTP(writer, httpRequest)
+	c.serveMux().ServeHTTP(writer, httpRequest)
 }
 
 // Handle registers the handler for the given pattern. If a handler already exists for pattern, Handle panics.
 func (c *Container) Handle(pattern string, handler http.Handler) {
-	c.ServeMux.Handle(pattern, http.HandlerFunc(func(httpWriter http.ResponseWriter, httpRequest *http.Request) {
+	c.serveMux().Handle(pattern, http.HandlerFunc(func(httpWriter http.ResponseWriter, httpRequest *http.Request) {
 		// Skip, if httpWriter is already an CompressingResponseWriter
 		if _, ok := httpWriter.(*CompressingResponseWriter); ok {
 			handler.ServeHTTP(httpWriter, httpRequest)
